@@ -67,14 +67,17 @@ Theorem C15_cache_transparent :
 Proof. exact cache_transparent. Qed.
 Print Assumptions C15_cache_transparent.
 
-(* ---------------------------------------------------------------- the whole directory: parallel deletions *)
+(* ---------------------------------------------------------------- the whole directory: concurrent deletions *)
 
-(* [drun sorted evs d]: the directory d (fractions in creation order, each in its single-fraction state)
-   after the events evs: a retention pass pushing out the k oldest listed fractions and starting one
-   deletion goroutine per outsider (DPass k), the scheduler letting the goroutine of fraction i perform
-   its next file operation (DStep i / DStepR i), bulks, background seals, rotation, process death after
-   ANY operation of ANY goroutine (DCrash), and a new process whose loader removals are again
-   interleaved and interruptible (DRestart; DStep). *)
+(* [drun sorted evs d]: the directory d (fractions in creation order, each in its single-fraction state;
+   pass goroutines with their queues of outsiders) after the events evs: a retention pass pushing out the
+   k oldest listed fractions and starting ONE goroutine that deletes them one after another in list order
+   (DPass k; the code after fix 14be38b), that goroutine performing its next file operation or turning to
+   its next outsider (DJob j), goroutines of the fractions themselves (background seal, Release, loader
+   removals: DStep i / DStepR i), bulks, seals, rotation, process death after ANY operation of ANY
+   goroutine (DCrash), and a new process whose loader removals are again interleaved and interruptible
+   (DRestart). Several passes may be in flight. [drun_v0]: the code before 14be38b, one deletion goroutine
+   per outsider (DStep i also performs the deletion of a pushed-out fraction i). *)
 
 (* All or nothing for every interleaving and every crash point: every fraction of the directory is in a
    good state (next start serves it completely or not at all, no document-bearing residue, the loader
@@ -89,51 +92,87 @@ Theorem C15_parallel_retention_all_or_nothing :
 Proof. exact par_all_or_nothing. Qed.
 Print Assumptions C15_parallel_retention_all_or_nothing.
 
-(* "Oldest first" right after a crash inside a pass does NOT hold: two outsiders, the goroutine of the
-   NEWER one gets as far as renaming its .sdocs to .sdocs.del, the older one has not started; crash;
-   the start finishes off the newer fraction and serves the older one.
-   Full statement that is refuted:
-     forall sorted k sched d0, Forall (fun s => clean sorted s = true) d0 ->
-       prefix_shape (map alive (after_crashed_pass sorted k sched d0)) = true. *)
-Theorem C15_parallel_retention_prefix_at_restart_refuted :
-  exists sorted k sched d0, Forall (fun s => clean sorted s = true) d0 /\
-    prefix_shape (map alive (after_crashed_pass sorted k sched d0)) = false.
-Proof. exact par_prefix_at_restart_refuted. Qed.
-Print Assumptions C15_parallel_retention_prefix_at_restart_refuted.
+(* the same for the interleavings of the code before 14be38b (a superset) *)
+Theorem C15_parallel_retention_all_or_nothing_v0 :
+  forall sorted d0 evs, Forall (reachable cur_progs sorted) (d_fr d0) ->
+    Forall (fun s => st_good true sorted s = true) (d_fr (drun_v0 sorted evs d0))
+    /\ (forall evs' i s, nth_error (d_fr (drun_v0 sorted evs d0)) i = Some s -> doomed s = true ->
+          exists s', nth_error (d_fr (drun_v0 sorted evs' (drun_v0 sorted evs d0))) i = Some s'
+                     /\ doomed s' = true /\ visible s' = false).
+Proof. exact par_all_or_nothing_v0. Qed.
+Print Assumptions C15_parallel_retention_all_or_nothing_v0.
 
-(* What does hold at that restart: the damage is confined to the k fractions the pass had selected;
-   every other fraction is served, none is lost from the directory listing. *)
-Theorem C15_parallel_retention_restart_bound :
+(* Oldest first in EVERY crash state of a pass: a directory of clean fractions with documents, one pass
+   over its k oldest, ANY scheduling of the pass goroutine and of the other goroutines (sched: any events;
+   those that let a goroutine perform an operation are used), crash after any operation, complete
+   restart: the fractions no longer served are a prefix of the creation order, and every fraction is
+   settled (served or gone, nothing pending). *)
+Theorem C15_parallel_retention_prefix_at_restart :
   forall sorted k sched d0, Forall (fun s => clean sorted s = true) d0 ->
-    length (after_crashed_pass sorted k sched d0) = length d0
-    /\ forallb alive (skipn k (after_crashed_pass sorted k sched d0)) = true.
-Proof. exact par_restart_bound. Qed.
-Print Assumptions C15_parallel_retention_restart_bound.
+    prefix_shape (map alive (after_crashed_pass sorted k sched d0)) = true
+    /\ Forall (fun s => settled s = true) (after_crashed_pass sorted k sched d0).
+Proof. exact par_prefix_at_restart. Qed.
+Print Assumptions C15_parallel_retention_prefix_at_restart.
 
-(* Eventually: the survivors of the interrupted pass are at the head of the list again, so as soon as a
-   later pass pushes out at least as many fractions as survived among the k selected ones, the removed
-   set is a prefix of the creation order again.
-   The unconditional statement (the NEXT pass with the same limit restores the prefix) is refuted below,
-   therefore this theorem carries the hypothesis on k' and is named _partial. *)
-Theorem C15_parallel_retention_prefix_eventually_partial :
+(* ... and it stays a prefix after the restart and ANY following pass (any k', in particular the one the
+   size rule chooses), run to its end. *)
+Theorem C15_parallel_retention_prefix_eventually :
   forall sorted k sched k' d0, Forall (fun s => clean sorted s = true) d0 ->
-    let d1 := after_crashed_pass sorted k sched d0 in
-    count_true (map alive (firstn k d1)) <= k' ->
-    prefix_shape (map alive (after_next_pass sorted k' d1)) = true.
+    prefix_shape (map alive (after_next_pass sorted k' (after_crashed_pass sorted k sched d0))) = true.
 Proof. exact par_prefix_eventually. Qed.
-Print Assumptions C15_parallel_retention_prefix_eventually_partial.
+Print Assumptions C15_parallel_retention_prefix_eventually.
 
-(* sizes 1, 10, 4, limit 5: the pass selects two fractions; crash as above; the manager then lists sizes
-   1 and 4, the limit holds, the next pass removes nothing: the older fraction stays served next to the
-   hole for as long as the total stays under the limit. *)
-Theorem C15_parallel_retention_prefix_eventually_refuted :
+(* Not covered by the two theorems above, and refuted by the faithful model of the repaired code: TWO passes
+   in flight. A later maintenance step may start its pass goroutine while the goroutine of the previous
+   pass has not yet deleted its outsider (proxyFrac.Suicide waiting for a seal, Sealed.Suicide /
+   Active.Suicide waiting in useMu.Lock for a reader); the second goroutine then deletes a NEWER fraction
+   first; a crash at that moment leaves the older one served next to the deleted newer one.
+   (runMaintenanceLoop waits for suicideWG only when the manager stops.) Reported as a candidate. *)
+Theorem C15_parallel_retention_overlapping_passes_refuted :
+  exists sorted evs d0, Forall (fun s => clean sorted s = true) d0 /\
+    prefix_shape (map alive (restart_all sorted (map crash1 (d_fr (drun sorted evs (mkd true d0 [])))))) = false.
+Proof. exact par_overlapping_passes_refuted. Qed.
+Print Assumptions C15_parallel_retention_overlapping_passes_refuted.
+
+(* ---- the code before fix 14be38b (one goroutine per outsider), kept as _v0 *)
+
+(* "Oldest first" right after a crash inside a pass did NOT hold: two outsiders, the goroutine of the
+   NEWER one gets as far as renaming its .sdocs to .sdocs.del, the older one has not started; crash;
+   the start finishes off the newer fraction and serves the older one (replayed on the real code before the
+   repair: known_findings.txt, fixed: 14be38b). *)
+Theorem C15_parallel_retention_prefix_at_restart_v0_refuted :
+  exists sorted k sched d0, Forall (fun s => clean sorted s = true) d0 /\
+    prefix_shape (map alive (after_crashed_pass_v0 sorted k sched d0)) = false.
+Proof. exact par_prefix_at_restart_v0_refuted. Qed.
+Print Assumptions C15_parallel_retention_prefix_at_restart_v0_refuted.
+
+(* sizes 1309, 1509, 196, limit 1505 (the real replay): the pass selects two fractions; crash as above; the
+   manager then lists sizes 1309 and 196, the limit holds, the next pass removes nothing. *)
+Theorem C15_parallel_retention_prefix_eventually_v0_refuted :
   exists sorted limit sizes sched d0, Forall (fun s => clean sorted s = true) d0 /\ length sizes = length d0 /\
     let k := shrink limit sizes in
-    let d1 := after_crashed_pass sorted k sched d0 in
+    let d1 := after_crashed_pass_v0 sorted k sched d0 in
     let k' := shrink limit (live_sizes d1 sizes) in
     k = 2 /\ k' = 0 /\ prefix_shape (map alive (after_next_pass sorted k' d1)) = false.
-Proof. exact par_prefix_eventually_refuted. Qed.
-Print Assumptions C15_parallel_retention_prefix_eventually_refuted.
+Proof. exact par_prefix_eventually_v0_refuted. Qed.
+Print Assumptions C15_parallel_retention_prefix_eventually_v0_refuted.
+
+(* what did hold for the old code: the damage was confined to the k selected fractions, and the prefix came
+   back once a later pass pushed out at least as many fractions as had survived among them *)
+Theorem C15_parallel_retention_restart_bound_v0 :
+  forall sorted k sched d0, Forall (fun s => clean sorted s = true) d0 ->
+    length (after_crashed_pass_v0 sorted k sched d0) = length d0
+    /\ forallb alive (skipn k (after_crashed_pass_v0 sorted k sched d0)) = true.
+Proof. exact par_restart_bound_v0. Qed.
+Print Assumptions C15_parallel_retention_restart_bound_v0.
+
+Theorem C15_parallel_retention_prefix_eventually_v0_partial :
+  forall sorted k sched k' d0, Forall (fun s => clean sorted s = true) d0 ->
+    let d1 := after_crashed_pass_v0 sorted k sched d0 in
+    count_true (map alive (firstn k d1)) <= k' ->
+    prefix_shape (map alive (after_next_pass sorted k' d1)) = true.
+Proof. exact par_prefix_eventually_v0. Qed.
+Print Assumptions C15_parallel_retention_prefix_eventually_v0_partial.
 
 (* ---------------------------------------------------------------- readers against deletion (use lock) *)
 
@@ -270,16 +309,20 @@ Qed.
 
 (* ---------------------------------------------------------------- non-vacuity of the new parts *)
 
-(* the hypothesis of the directory theorems is met, and a pass with two goroutines really interleaves:
-   after "newer fraction: two operations, older: none" the newer one carries a .del file *)
+(* the hypothesis of the directory theorems is met; the pass goroutine of the repaired code works on the
+   OLDER outsider whatever the scheduler does (DStep 1 has no effect), the old code let the newer one go first *)
 Example C15_nonvacuous_par :
   Forall (reachable cur_progs true) [clean_sealed true; clean_sealed true; clean_active]
   /\ Forall (fun s => clean true s = true) [clean_sealed true; clean_sealed true; clean_active]
   /\ map (fun s => any_del (files s))
-        (d_fr (drun true [DPass 2; DStep 1; DStep 1; DStep 0; DCrash]
-                 (mkd true [clean_sealed true; clean_sealed true; clean_active]))) = [false; true; false]
-  /\ map alive (after_crashed_pass true 2 [1; 1] [clean_sealed true; clean_sealed true; clean_active]) = [true; false; true]
-  /\ map alive (after_next_pass true 1 (after_crashed_pass true 2 [1; 1] [clean_sealed true; clean_sealed true; clean_active]))
+        (d_fr (drun true [DPass 2; DStep 1; DStep 1; DJob 0; DJob 0; DCrash]
+                 (mkd true [clean_sealed true; clean_sealed true; clean_active] []))) = [true; false; false]
+  /\ map (fun s => any_del (files s))
+        (d_fr (drun_v0 true [DPass 2; DStep 1; DStep 1; DCrash]
+                 (mkd true [clean_sealed true; clean_sealed true; clean_active] []))) = [false; true; false]
+  /\ map alive (after_crashed_pass true 2 [DStep 1; DJob 0; DJob 0; DStep 1] [clean_sealed true; clean_sealed true; clean_active]) = [false; true; true]
+  /\ map alive (after_crashed_pass_v0 true 2 [1; 1] [clean_sealed true; clean_sealed true; clean_active]) = [true; false; true]
+  /\ map alive (after_next_pass true 1 (after_crashed_pass_v0 true 2 [1; 1] [clean_sealed true; clean_sealed true; clean_active]))
      = [false; false; true].
 Proof.
   split; [|split; [repeat (apply Forall_cons; [reflexivity|]); apply Forall_nil|repeat split; vm_compute; reflexivity]].
